@@ -355,6 +355,112 @@ def rule_ring(ctx, rep):
             raise Broken("%s: stop_defer_thread anatomy" % fl)
 
 
+def _slot_index(f, i, k, path):
+    """index expression of a ring access (before masking), phis resolved along the path"""
+    from .. import paths as _paths
+    a = ir.strip_casts(f, i.args[k], int_too=False)
+    ge = f.inst_of(a)
+    if ge is None or ge.op != "gep":
+        return None, None
+    e = _paths.expr_on_path(f, ge.args[-1], path, 10)
+    if e[0] == "bin" and e[1] == "and" and e[3][0] == "c":
+        return e[2], e[3][1]
+    return e, None
+
+
+def rule_slots(ctx, rep):
+    """Ring indexing.  Encoder (defer_rcu): on every path the words of one deferred call go to consecutive slots head, head+1,
+    ... (each masked with the ring mask) and the head published afterwards is the old head plus the number of words written.
+    Decoder (rcu_defer_barrier_queue): in every iteration the words are read from consecutive slots i, i+1, ... and the next
+    iteration (or the tail published at the end) continues at i plus the number of words read.  A slot index that runs backwards
+    or skips makes the decoder take a data word for a function pointer."""
+    from .. import linear, paths as _paths
+    for fl in ALL:
+        F, fn = _defer_fns(ctx, fl)
+        f = fn["rcu"]
+        rep.touch(f)
+        ring_st = ring_accesses(f, "store")
+        head_st = pat.stores(f, "defer_queue.head")
+        pat.require(ring_st and len(head_st) == 1, "%s: defer_rcu ring / head stores" % fl)
+        hb = head_st[0].blk.id
+        base = None
+        bad = []
+        npaths = 0
+        masks = set()
+        for p_ in _paths.enum_paths(f, 0, stop=lambda b: b.id == hb, limit=2048):
+            if p_[-1] != hb:
+                continue
+            sts = [i for b in p_ for i in f.blocks[b].insts if i in ring_st]
+            if not sts:
+                continue
+            npaths += 1
+            offs = []
+            for i in sts:
+                e, mk = _slot_index(f, i, 1, p_)
+                masks.add(mk)
+                n_ = linear.norm(e) if e is not None else None
+                if n_ is None:
+                    raise Broken("%s: ring slot index not linear: %s" % (fl, ir.expr_str(e) if e else None))
+                terms = {t: c for t, c in n_.items() if t != 1}
+                if base is None:
+                    base = terms
+                if terms != base:
+                    raise Broken("%s: ring slot indexes have different bases" % fl)
+                offs.append(n_.get(1, 0))
+            hv = linear.norm(_paths.expr_on_path(f, head_st[0].args[0], p_, 10))
+            hoff = hv.get(1, 0) if hv is not None and {t: c for t, c in hv.items() if t != 1} == base else None
+            if offs != list(range(len(offs))) or hoff != len(offs):
+                bad.append((offs, hoff))
+        pat.require(npaths >= 3, "%s: encoder paths" % fl)
+        okbase = base is not None and list(base.values()) == [1] and list(base)[0][0] == "ld" and list(base)[0][1].endswith("defer_queue.head")
+        rep.check(not bad and okbase, "C13.slots", fl + ".encode.consecutive", "on each of %d paths the words go to slots head, head+1, ... and head advances by the number of words" % npaths,
+                  "encoder writes slots at offsets %s from the old head and then publishes head + %s: the decoder reads the words in a different order / a slot is skipped" % (bad[0] if bad else ("?", "?")), [ring_st[0].where()])
+        rep.check(len(masks) == 1 and None not in masks and (list(masks)[0] & (list(masks)[0] + 1)) == 0, "C13.slots", fl + ".encode.mask", "every slot index is masked with the same 2^k - 1 (%s)" % sorted(masks, key=str),
+                  "slot indexes are masked with %s" % sorted(masks, key=str), [ring_st[0].where()])
+        # decoder
+        g = fn["bthread"]
+        rep.touch(g)
+        lds = ring_accesses(g, "load")
+        tl = pat.stores(g, "defer_queue.tail")
+        pat.require(lds and tl, "%s: decoder ring loads / tail store" % fl)
+        tv = ir.expr(g, tl[0].args[0], 3)
+        pat.require(tv[0] == "phi", "%s: decoder position is not a loop variable" % fl)
+        ph = g.insts[tv[1]]
+        hdr = ph.blk.id
+        comp = [c for c in g.sccs() if hdr in c]
+        pat.require(comp, "%s: decoder loop" % fl)
+        comp = comp[0]
+        bad = []
+        npaths = 0
+        dmasks = set()
+        back = [(v, b) for v, b in ph.d["inc"] if b in comp]
+        pat.require(back, "%s: decoder back edge" % fl)
+        for p_ in _paths.enum_paths(g, hdr, stop=lambda b: any(b.id == bb for _v, bb in back) , limit=2048):
+            if not any(p_[-1] == bb for _v, bb in back) or any(b not in comp for b in p_):
+                continue
+            rd = [i for b in p_ for i in g.blocks[b].insts if i in lds]
+            if not rd:
+                continue
+            npaths += 1
+            offs = []
+            for i in rd:
+                e, mk = _slot_index(g, i, 0, p_)
+                dmasks.add(mk)
+                n_ = linear.norm(e) if e is not None else None
+                if n_ is None or {t: c for t, c in n_.items() if t != 1} != {("t", "phi#%d" % ph.id): 1}:
+                    raise Broken("%s: decoder slot index not of the form position + k: %s" % (fl, ir.expr_str(e) if e else None))
+                offs.append(n_.get(1, 0))
+            nxt = [v for v, bb in back if bb == p_[-1]][0]
+            nv = linear.norm(_paths.expr_on_path(g, nxt, p_ + [hdr], 10))
+            noff = nv.get(1, 0) if nv is not None and {t: c for t, c in nv.items() if t != 1} == {("t", "phi#%d" % ph.id): 1} else None
+            if offs != list(range(len(offs))) or noff != len(offs):
+                bad.append((offs, noff))
+        pat.require(npaths >= 3, "%s: decoder paths (%d)" % (fl, npaths))
+        rep.check(not bad, "C13.slots", fl + ".decode.consecutive", "in each of %d iteration shapes the words are read from slots i, i+1, ... and the position advances by the number of words read" % npaths,
+                  "decoder reads slots at offsets %s from its position and continues at position + %s" % (bad[0] if bad else ("?", "?")), [lds[0].where()])
+        rep.check(dmasks == masks, "C13.slots", fl + ".decode.mask", "decoder and encoder use the same ring mask", "decoder masks with %s, encoder with %s" % (sorted(dmasks, key=str), sorted(masks, key=str)), [lds[0].where()])
+
+
 def rule_locks(ctx, rep):
     for fl in ALL:
         F, fn = _defer_fns(ctx, fl)
@@ -469,6 +575,7 @@ RULES = [
     ("C13.cap", rule_cap),
     ("C13.gp", rule_gp),
     ("C13.ring", rule_ring),
+    ("C13.slots", rule_slots),
     ("C13.locks", rule_locks),
     ("C13.reg", rule_reg),
     ("C13.unreg", rule_unreg),
